@@ -19,6 +19,22 @@ MAX_UNROLL = 4000
 MAX_DEPTH = 40
 
 
+def _has_quant(e):
+    if isinstance(e, bool):
+        return False
+    stack = [e]
+    seen = set()
+    while stack:
+        t = stack.pop()
+        if t.get_id() in seen:
+            continue
+        seen.add(t.get_id())
+        if z3.is_quantifier(t):
+            return True
+        stack.extend(t.children())
+    return False
+
+
 # ------------------------------------------------------------------------------------------- control signals
 class ReturnSig(Exception):
     def __init__(self, value):
@@ -231,6 +247,17 @@ class RepoModule:
         self.load()
         if name in self.globals:
             return self.globals[name]
+        busy = self.interp.lookup_busy
+        key = (self.name, name)
+        if key in busy:
+            raise KeyError(name)                      # cyclic star-import chain
+        busy.add(key)
+        try:
+            return self._lookup(name)
+        finally:
+            busy.discard(key)
+
+    def _lookup(self, name):
         if name in self.defs:
             st = self.defs[name]
             qn = self.name + '.' + name
@@ -291,8 +318,9 @@ class Interp:
         self.invariants = invariants or {}      # (qualname, loop ordinal) -> invariant spec
         self.depth = 0
         self.functions_seen = set()
-        self.feas_timeout = 1500
+        self.feas_timeout = int(os.environ.get("PYVC_FEAS_MS", "400"))
         self.store_hook = None                   # optional callback(target array value) for frame analysis
+        self.lookup_busy = set()
         lib.interp = self
 
     # ------------------------------------------------------------------------------------------- modules
@@ -370,7 +398,11 @@ class Interp:
             c._np = 0
         s = c.solver
         while c._nf < len(c.facts):
-            s.add(c.facts[c._nf])
+            f = c.facts[c._nf]
+            # quantified library axioms are left out of the *feasibility* solver (over-approximation of feasible paths is
+            # sound; it keeps these checks quantifier-free and fast); obligations always see every fact
+            if not _has_quant(f):
+                s.add(f)
             c._nf += 1
         while c._np < len(c.pc):
             s.add(c.pc[c._np])
@@ -424,6 +456,9 @@ class Interp:
         c.pos += 1
         c.pc.append(cond if d else z3.Not(cond))
         memo[cond.get_id()] = (cond, d)
+        c.known[cond.get_id()] = (cond, d)
+        if z3.is_not(cond):
+            c.known[cond.arg(0).get_id()] = (cond.arg(0), not d)
         c.trace.append('%s=%s' % (label or 'br', 'T' if d else 'F'))
         return d
 
@@ -447,7 +482,11 @@ class Interp:
             return
         if cond is False:
             raise Infeasible()
-        ctx().pc.append(cond)
+        c = ctx()
+        c.pc.append(cond)
+        c.known[cond.get_id()] = (cond, True)
+        if z3.is_not(cond):
+            c.known[cond.arg(0).get_id()] = (cond.arg(0), False)
 
     def oblige(self, name, cond):
         c = ctx()
